@@ -124,6 +124,17 @@ def inline_refs(s, defs, flatten, sort, stack=()):
                 xs += x['xs']
             else:
                 xs.append(x)
+        if flatten:
+            # a union flattened through a reference can repeat a member the outer union already has (`null | Alias` with Alias = `null | 1`)
+            seen, uniq = set(), []
+            for x in xs:
+                kx = json.dumps(x, sort_keys=True)
+                if kx not in seen:
+                    seen.add(kx)
+                    uniq.append(x)
+            xs = uniq
+            if len(xs) == 1:
+                return xs[0]       # `null | Alias` with Alias = null
         d['xs'] = sorted(xs, key=lambda x: json.dumps(x, sort_keys=True)) if sort else xs
     return d
 
